@@ -515,11 +515,11 @@ def allSome {α} : List (Option α) → Option (List α)
 def Form.classList (M : Meta) (f : Form) : Option (List OpClass) :=
   allSome ((f.ops.take f.arity).map (specClass M))
 
-/-- A documentation row, read back: mnemonic and operand classes. -/
-def parseDoc (row : Nat) : Option (Nat × List OpClass) :=
-  match Name.words row with
+/-- A documentation row (words), read back: mnemonic key and operand classes. -/
+def parseDoc (row : List Nat) : Option (Nat × List OpClass) :=
+  match row with
   | [] => none
-  | m :: ts => (allSome (ts.map OpClass.ofDoc)).map (m, ·)
+  | m :: ts => (allSome (ts.map OpClass.ofDoc)).map (Name.key m, ·)
 
 /-- an operand list matches a documented class tuple -/
 def tupleMatches : List OpClass → List Operand → Bool
@@ -541,15 +541,22 @@ def zipEntries : List Nat → List Nat → List (Nat × Nat) → List OpcEntry
 
 def Meta.entries (M : Meta) : List OpcEntry := zipEntries M.opcs M.opcStrings M.opcRanges
 
-/-- what the doc rows of a function (mnemonic `mn`, suffixes `s`) must be, given
-the forms of its opcode: one tuple per form whose suffix class admits `s` -/
-def expectedTuples (M : Meta) (mn : Nat) (s : Sfx) (grp : List Form) : List (Option (Nat × List OpClass)) :=
-  (grp.filter (fun f => admits M f.cls s)).map (fun f => (f.classList M).map (mn, ·))
+/-- the operand words a form is documented with -/
+def Form.docWords (M : Meta) (f : Form) : Option (List Nat) :=
+  (f.classList M).map (fun cs => cs.map OpClass.doc)
 
-/-- the documentation of a function is a permutation of the expected tuples -/
-def docOK (M : Meta) (mn : Nat) (s : Sfx) (grp : List Form) (doc : List Nat) : Bool :=
-  let e := expectedTuples M mn s grp
-  e.all Option.isSome && (doc.map parseDoc).isPerm e
+/-- what the doc rows of a function with suffixes `s` must be, given the forms
+of its opcode: one row of operand words per form whose suffix class admits `s` -/
+def expectedRows (M : Meta) (s : Sfx) (grp : List Form) : List (Option (List Nat)) :=
+  (grp.filter (fun f => admits M f.cls s)).map (fun f => f.docWords M)
+
+/-- every row starts with the mnemonic `mn` (a key) and the operand words of
+the rows are a permutation of the expected ones -/
+def docOK (M : Meta) (mn : Nat) (s : Sfx) (grp : List Form) (doc : List (List Nat)) : Bool :=
+  let e := expectedRows M s grp
+  e.all Option.isSome &&
+  doc.all (fun r => match r with | m :: _ => Name.key m == mn | [] => false) &&
+  (doc.map (fun r => some r.tail)).isPerm e
 
 /-- forwarding is the identity: a literal slice of the parameters in
 declaration order, or the variadic slice itself -/
@@ -567,8 +574,8 @@ def ctorOK (M : Meta) (_k : Nat) (e : OpcEntry) (grp : List Form) (c : CtorRow) 
   match sfxOf M c.sfxConsts with
   | none => false
   | some s =>
-    c.name == Name.join nUnderscore (e.str :: sfxStrings M s) &&
-    docOK M (Name.join nDot (e.str :: sfxStrings M s)) s grp c.doc
+    Name.key c.name == Name.kjoin (Name.key nUnderscore) (Name.key e.str :: (sfxStrings M s).map Name.key) &&
+    docOK M (Name.kjoin (Name.key nDot) (Name.key e.str :: (sfxStrings M s).map Name.key)) s grp c.doc
 
 /-- Streaming join of the opcode enum, the forms table and the constructor rows
 (both grouped by opcode in enum order).  `k` is the code of the opcode at the
